@@ -172,8 +172,64 @@ func checkProcessWideState(c *Ctx, r *Report, clause string) {
 // fields is reviewed (tables/statefields.json): a new one is new state that can carry an answer
 // from one call, pass or project to the next.
 
+// mutatedFields: struct fields that are written after construction somewhere in gleece - an
+// insert/delete/clear on the map held in them, a method call on the sync object in them, or an
+// assignment through something that is not a struct being built in place.
+func (w *World) mutatedFields() map[*types.Var]bool {
+	out := map[*types.Var]bool{}
+	markMap := func(m ssa.Value) {
+		for f := range sliceOf(m).Fields {
+			if _, isMap := f.Type().Underlying().(*types.Map); isMap {
+				out[f] = true
+			}
+		}
+	}
+	for _, fn := range w.SSAFuncs {
+		for _, b := range fn.Blocks {
+			for _, ins := range b.Instrs {
+				switch x := ins.(type) {
+				case *ssa.MapUpdate:
+					markMap(x.Map)
+				case *ssa.Store:
+					if fa, ok := x.Addr.(*ssa.FieldAddr); ok {
+						base := fa.X
+						for {
+							if f2, ok := base.(*ssa.FieldAddr); ok {
+								base = f2.X
+								continue
+							}
+							break
+						}
+						if _, fresh := base.(*ssa.Alloc); !fresh {
+							if v := structFieldVar(fa.X.Type(), fa.Field); v != nil {
+								out[v] = true
+							}
+						}
+					}
+				case ssa.CallInstruction:
+					nm := calleeName(x)
+					if (nm == "builtin.delete" || nm == "builtin.clear") && len(x.Common().Args) > 0 {
+						markMap(x.Common().Args[0])
+					}
+					if strings.HasPrefix(nm, "(*sync.") || strings.HasPrefix(nm, "(*sync/atomic.") {
+						if len(x.Common().Args) > 0 {
+							if fa, ok := x.Common().Args[0].(*ssa.FieldAddr); ok {
+								if v := structFieldVar(fa.X.Type(), fa.Field); v != nil {
+									out[v] = true
+								}
+							}
+						}
+					}
+				}
+			}
+		}
+	}
+	return out
+}
+
 func (w *World) containerFields() map[string]string {
 	out := map[string]string{}
+	mutated := w.mutatedFields()
 	for _, p := range w.Pkgs {
 		if !isAnalysedPkg(p.PkgPath) {
 			continue
@@ -203,8 +259,8 @@ func (w *World) containerFields() map[string]string {
 					}
 					_ = u
 				}
-				if kind == "" {
-					continue
+				if kind == "" || !mutated[f] {
+					continue // (a container that is only built and read is data, not state)
 				}
 				out[short(p.PkgPath)+"."+tn.Name()+"."+f.Name()] = w.pos(f.Pos())
 			}
